@@ -994,6 +994,34 @@ def _(x, extra=0):
     return ('base-or-derived', type(x).__name__)
 
 
+class _Sink:
+    def __init__(self):
+        self.out = []
+
+    @functools.singledispatchmethod
+    def put(self, x):
+        self.out.append(('other', type(x).__name__))
+
+    @put.register(int)
+    def _put_int(self, x):
+        self.out.append(('int', x))
+
+    @put.register(str)
+    def _put_str(self, x):
+        self.out.append(('str', x))
+
+    @put.register(_Base)
+    def _put_base(self, x):
+        self.out.append(('base', type(x).__name__))
+
+
+def f_singledispatchmethod():
+    s = _Sink()
+    for v in (True, 3, 'q', 2.5, _Derived(), None):
+        s.put(v)
+    return s.out
+
+
 def f_singledispatch():
     return [_kind(v) for v in (True, 5, 'ab', b'xy', bytearray(b'z'), 2.5, None, [1], _Base(), _Derived())], _kind(7, extra=3), _kind(7, 1)
 
